@@ -169,7 +169,7 @@ func (r *hyRun) reload() {
 		}
 		fresh := comet.NewHybridSearchIndex(nv, nt, nm)
 		rd := bytes.NewReader(all.Bytes())
-		nr, err = fresh.ReadFrom(rd)
+		nr, err = fresh.ReadFrom(srcOf(rd))
 		rest, _ = io.ReadAll(rd)
 		if err == nil {
 			r.h, r.vecIdx, r.txtIdx, r.metaIdx = fresh, nv, nt, nm
@@ -216,6 +216,7 @@ type hyQuery struct {
 	k      int
 	fusion int
 	wv, wt int
+	emptyText bool // WithText("") : a text query that matches nothing (and needs a text index)
 	rrk    int // reciprocal-rank constant (60 unless rrkSet)
 	rrkSet bool
 }
@@ -237,6 +238,8 @@ func (r *hyRun) search(q hyQuery) {
 	}
 	if q.text != "" {
 		s = s.WithText(q.text)
+	} else if q.emptyText {
+		s = s.WithText("")
 	}
 	hasFilter := len(q.groups) > 0
 	if hasFilter {
@@ -283,7 +286,7 @@ func (r *hyRun) search(q hyQuery) {
 			}
 		}
 	}
-	r.t.ev("search", E{"qpos": q.qpos, "qtoks": r.bm.toks(q.text), "groups": groups, "hasFilter": hasFilter, "k": q.k,
+	r.t.ev("search", E{"qpos": q.qpos, "qtoks": r.bm.toks(q.text), "groups": groups, "hasFilter": hasFilter, "hasText": q.text != "" || q.emptyText, "k": q.k,
 		"fusion": string(fuseKinds[q.fusion]), "wv": q.wv, "wt": q.wt, "rrk": q.rrk, "ok": err == nil && !panicked, "res": res})
 }
 
@@ -308,6 +311,9 @@ func (r *hyRun) randQuery() hyQuery {
 		if r.rng.Intn(8) == 0 {
 			q.text = "zzz" // matches nothing
 		}
+	}
+	if !useT && r.rng.Intn(12) == 0 {
+		q.emptyText = true
 	}
 	if useM {
 		fields := []string{"c", "n"}
@@ -374,6 +380,10 @@ func (r *hyRun) battery() {
 	for f := 0; f < 4; f++ {
 		r.search(hyQuery{qpos: 2, text: "aa bb", k: 5, fusion: f, wv: 2, wt: 2})
 	}
+	// an empty text query: matches nothing, alone, with a filter and next to a vector
+	r.search(hyQuery{qpos: -1, emptyText: true, k: 3, fusion: 0, wv: 2, wt: 2})
+	r.search(hyQuery{qpos: -1, emptyText: true, groups: eq("x"), k: 3, fusion: 0, wv: 2, wt: 2, simple: true})
+	r.search(hyQuery{qpos: 1, emptyText: true, k: 3, fusion: 0, wv: 2, wt: 2})
 	// boundary fusion configurations: both weights zero, one weight zero, reciprocal-rank constants 0 and 1
 	r.search(hyQuery{qpos: 3, text: "aa bb", k: 5, fusion: 0, wv: 0, wt: 0})
 	r.search(hyQuery{qpos: 3, text: "aa bb", k: 5, fusion: 0, wv: 0, wt: 2})
